@@ -9,7 +9,8 @@
 (* out: the invariants must then fail (they have teeth).                        *)
 EXTENDS Naturals, Sequences, FiniteSets, TLC
 
-CONSTANTS Threads, Params, Vals, Errs, Conns, MaxOps, Omit, MaxNow, UseLock
+CONSTANTS Threads, Params, Vals, Errs, Conns, MaxOps, Omit, MaxNow, UseLock,
+          OpKinds    \* subset of {"read", "write", "assign", "annerr"} explored
 
 Ok == "ok"
 None == "none"
@@ -17,11 +18,12 @@ View(e) == IF e.err # Ok THEN <<"e", e.err, e.ts>> ELSE <<"v", e.val, e.ts>>
 InitEntry == [val |-> CHOOSE v \in Vals : TRUE, err |-> Ok, ts |-> 0]
 
 (* operations a thread may perform: kind, parameter, value, error *)
-OpSet == {[k |-> "read", p |-> p, v |-> v, e |-> Ok] : p \in Params, v \in Vals} \cup
+AllOpSet == {[k |-> "read", p |-> p, v |-> v, e |-> Ok] : p \in Params, v \in Vals} \cup
          {[k |-> "read", p |-> p, v |-> CHOOSE v \in Vals : TRUE, e |-> e] : p \in Params, e \in Errs} \cup
          {[k |-> "write", p |-> p, v |-> v, e |-> Ok] : p \in Params, v \in Vals} \cup
          {[k |-> "assign", p |-> p, v |-> v, e |-> Ok] : p \in Params, v \in Vals} \cup
          {[k |-> "annerr", p |-> p, v |-> CHOOSE v \in Vals : TRUE, e |-> e] : p \in Params, e \in Errs}
+OpSet == {o \in AllOpSet : o.k \in OpKinds}
 NoOp == [k |-> "none", p |-> CHOOSE p \in Params : TRUE, v |-> CHOOSE v \in Vals : TRUE, e |-> Ok]
 
 (*--algorithm ParamCacheConc {
